@@ -6,11 +6,13 @@ TRUSTED = [
     "scripted environment harness/lib/group_fakeclient.py: fake client reproducing the real client's cancel outcomes (client_iface.md), fake partition consumers (start/shutdown/stop recorded; completion decided by the scenario)",
     "Twisted Deferred/inlineCallbacks/DeferredList/LoopingCall semantics as folded into Afkak/Group.lean (checked by the per-step correspondence, not proved)",
     "extractor harness/consts/group.py: symbolic run of rejoin_after_error / _get_coordinator_failed / rejoin_d_errback over the class hierarchy of afkak/common.py",
+    "full-stack stage: recording proxies harness/lib/group_fullstack.py (RecClient around each member's real KafkaClient, RecReactor, RecConsumer, and ConClient around the client each real partition Consumer gets: its fetch / offset / commit calls are attributed to that consumer and placed after the group step during which they happen)",
 ]
 ASSUMPTIONS = [
     "partition consumers keep the guarantee side of C02/C03/C13: shutdown()/stop() do not raise for a running consumer, a consumer whose shutdown Deferred fired has stopped",
     "a consumer's shutdown completion is an environment event: one that never completes (F11) wedges on_join_prepare; the member is then 'joining', not idle",
     "the client keeps ClientIface: each request completes at most once with one of the result kinds; cancel outcomes as in client_iface.md",
+    "composition with the consumer package (Afkak.GroupCompose): a Consumer whose stop() has run issues no request (C13_stop_leaves_nothing_fetching, C13_stop_leaves_no_timer) - the enabling condition of the product model's consumer events; checked on the real Consumer objects by the composed monitors of the full-stack stage",
     "times are dyadic rationals in the scenarios so that Twisted's float arithmetic is exact; reactor latency is not modelled",
 ]
 
